@@ -36,6 +36,7 @@ type layCase struct {
 	// order that the guards of the place where the order value was chosen imply
 	needLen int64
 	orderOv string
+	stdCall *ssa.Call // the library call, in frame fn
 }
 
 // stdDecodeCall: c is X.Uint16/32/64(data) of encoding/binary: the width, the data, the receiver (interface calls) or
@@ -219,7 +220,7 @@ func valueCases(r *core.Run, fn *ssa.Function, v ssa.Value, blk, edge *ssa.Basic
 			if fixed != "" {
 				// binary.LittleEndian.Uint16(data) under whatever guards hold here
 				cs := base
-				cs.m, cs.data, cs.needLen = stdLayout(fixed, width), ddata, width
+				cs.m, cs.data, cs.needLen, cs.stdCall = stdLayout(fixed, width), ddata, width, c
 				return []layCase{cs}
 			}
 			var out []layCase
@@ -238,7 +239,7 @@ func valueCases(r *core.Run, fn *ssa.Function, v ssa.Value, blk, edge *ssa.Basic
 				if cs.orderOv == "" {
 					cs.orderOv = "BigEndian" // the code's default when ByteOrder is not LittleEndian
 				}
-				cs.m, cs.data, cs.needLen = stdLayout(lf.order, width), ddata, width
+				cs.m, cs.data, cs.needLen, cs.stdCall = stdLayout(lf.order, width), ddata, width, c
 				out = append(out, cs)
 			}
 			return out
@@ -617,7 +618,7 @@ func layoutReaders(r *core.Run) int {
 			if c.needLen > 0 {
 				// the library indexes data[needLen-1] before anything else
 				need := linAtom("len("+canon(data)+")").add(linConst(c.needLen), -1)
-				if fs := c.facts(); !entails(fs, need) {
+				if fs := c.facts(); !entails(fs, need) && !(c.stdCall != nil && boundsLenAtLeast(r.Prog, c.fn, c.stdCall, c.data, c.needLen)) {
 					okB = false
 					why = fmt.Sprintf("encoding/binary reads %d bytes of data under %v, which does not imply len(data) >= %d: a short read makes the library panic (index out of range)", c.needLen, factStrings(fs), c.needLen)
 				}
